@@ -1725,6 +1725,27 @@ func ruleFamily(ctx *Ctx) error {
 		for _, c := range operatorEdgeCases() {
 			run(c, "operator-edge")
 		}
+		// the flag loop, bounded exhaustive: every sequence of up to 3 (thorough: 4) tokens — flags with and
+		// without their values, inline values, values that look like flags, the terminator, stray words (no
+		// intent attached: model and library must agree, and nothing may panic)
+		toks := []string{"-a", "always,exit", "-A", "-F", "pid=1", "-F=uid=2", "-S", "open", "-k", "x", "-w", "/tmp/x", "-p", "r", "-D", "-D=false", "-C", "auid!=uid", "--", "-", "junk", "-k=", "--k", "-help"}
+		maxLen := 3
+		if ctx.Thorough() {
+			maxLen = 4
+		}
+		var rec func(prefix []string)
+		rec = func(prefix []string) {
+			if len(prefix) > 0 {
+				run(RCaseR{Kind: "line", Note: "flag-grammar", Tokens: append([]string{}, prefix...)}, "flag-grammar")
+			}
+			if len(prefix) == maxLen || unlisted >= 8 {
+				return
+			}
+			for _, tk := range toks {
+				rec(append(prefix, tk))
+			}
+		}
+		rec(nil)
 	}
 	// Rule structs with degenerate filter parts, systematically (Build takes any Rule value, not only what
 	// flags.Parse produces): every field name with an empty / sign-only / blank value, and empty names and operators
